@@ -1,28 +1,35 @@
 (* C15 - the Mechanism (Reuse.v) refines the Spec (ReuseSpec.v) at every snippet of every history outside the named
-   class; the class is inhabited.  See ReuseProofs.v for the other theorems. *)
+   classes; the classes are inhabited.  See ReuseProofs.v for the other theorems. *)
 From Coq Require Import List Bool Arith ZArith String Lia.
 From YV Require Import Show ReplLang Reuse ReuseSpec ReuseProofs.
 Import ListNotations.
 
-(* ====================================================================================== *)
-(* C. the Mechanism refines the Spec outside the named class *)
+(* the Spec sees a fiber of a finished run as finished *)
+Definition unmark (v : option gval) : option gval :=
+  match v with Some (VFiber _) => Some (VFiber false) | _ => v end.
 
 Record Rel (k : kstate) (s : sstate) (c : carried) : Prop := mkRel {
-  r_glob : s_globals s = c_globals c;
-  r_imp : forall m, s_imported s m = match c_mods c m with Some true => true | _ => false end;
-  r_poison : forall m, c_mods c m = Some false -> k_poisoned k m = true;
-  r_unreg : c_mods c MMissing = None /\ c_mods c MSyntax = None;
-  r_fail : c_mods c MThrow <> Some true /\ c_mods c MNest <> Some true;
-  r_good : c_mods c MGood <> Some false
+  r_glob : s_globals s = gmap unmark (c_globals c);
+  r_wait : k_waiting k = false -> g_fib (c_globals c) <> Some (VFiber true);
+  r_imp : forall m, s_imported s m = match mget m (c_mods c) with Some true => true | _ => false end;
+  r_poison : forall m, mget m (c_mods c) = Some false -> k_poisoned k m = true;
+  r_unreg : r_missing (c_mods c) = None /\ r_syn (c_mods c) = None;
+  r_fail : r_bad (c_mods c) <> Some true /\ r_nest (c_mods c) <> Some true;
+  r_goodm : r_good (c_mods c) <> Some false
 }.
 
 Lemma rel_init : Rel k_init s_init init_carried.
-Proof. constructor; cbn; auto; try (split; discriminate); try discriminate; intros m H; discriminate H. Qed.
+Proof.
+  constructor; cbn; auto; try (split; discriminate); try discriminate.
+  - intros m; destruct m; reflexivity.
+  - intros m H; destruct m; discriminate H.
+Qed.
 
 Lemma rel_reset : forall c, Rel k_init s_init (m_reset c).
 Proof.
   intros [he fibs cd mods ch rg gl]; unfold m_reset, m_reset_stack; destruct fibs; cbn;
-    (constructor; cbn; auto; try (split; discriminate); try discriminate; intros m H; discriminate H).
+    (constructor; cbn; auto; try (split; discriminate); try discriminate;
+     [intros m; destruct m; reflexivity | intros m H; destruct m; discriminate H]).
 Qed.
 
 Definition step_goal (k : kstate) (s : sstate) (c : carried) (sn : snip) : Prop :=
@@ -30,40 +37,74 @@ Definition step_goal (k : kstate) (s : sstate) (c : carried) (sn : snip) : Prop 
   settled (snd (m_snippet c sn)) /\
   (snd (scan_snippet k sn) = None -> snd (m_snippet c sn) = snd (spec_snippet s sn)).
 
-Ltac gl_case :=
-  match goal with
-  | |- context [match ?f ?x with _ => _ end] => is_var f; destruct (f x) as [[? | ? | ? | ? | ?]|]
-  end.
 Ltac nf := lazy -[show_Z show_nat Z.add String.append name_error exc_msg circular_msg missing_msg gname_s fname_s cname_s
                  mod_alias mod_v range_hit range_full].
-Ltac ev := nf; repeat (gl_case; nf).
-(* the registry and the poison set are unchanged *)
-Ltac fin_same Hi Hp Hu Hf Hg :=
-  split; [constructor; [reflexivity | exact Hi | exact Hp | exact Hu | exact Hf | exact Hg]
+Ltac dv x := destruct x as [[?|?|?|?|[]|?]|].
+
+(* the registry, the poison set and the waiting flag are unchanged; globals changed the same way on both sides *)
+Ltac fin_same Hw Hi Hp Hu Hf Hg :=
+  split; [constructor; [reflexivity | exact Hw | exact Hi | exact Hp | exact Hu | exact Hf | exact Hg]
          | split; [exact I | intros _; reflexivity]].
 
-Lemma refine_plain : forall k s c sn,
-  (forall m, sn <> SnImport m) -> sn <> SnReset -> Rel k s c -> step_goal k s c sn.
+Section Plain.
+Variables (kp : modk -> bool) (kw : bool) (si : modk -> bool) (he : bool) (fibs : list fiber) (cd : bool)
+          (mods : modreg) (ch : nat) (rg : list nat).
+Variables a0 a1 a2 a3 a4 a5 a6 a7 a8 a9 a10 a11 a12 : option gval.
+Let gl := mkG a0 a1 a2 a3 a4 a5 a6 a7 a8 a9 a10 a11 a12.
+Let K := mkK kp kw.
+Let S0 := mkS (gmap unmark gl) si.
+Let C0 := mkC he fibs cd mods ch rg gl.
+Hypothesis Hw : kw = false -> a7 <> Some (VFiber true).
+Hypothesis Hi : forall m, si m = match mget m mods with Some true => true | _ => false end.
+Hypothesis Hp : forall m, mget m mods = Some false -> kp m = true.
+Hypothesis Hu : r_missing mods = None /\ r_syn mods = None.
+Hypothesis Hf : r_bad mods <> Some true /\ r_nest mods <> Some true.
+Hypothesis Hg : r_good mods <> Some false.
+
+Lemma refine_var : forall g z, step_goal K S0 C0 (SnVar g z).
+Proof. intros g z; unfold step_goal, K, S0, C0, gl; destruct g; nf; fin_same Hw Hi Hp Hu Hf Hg. Qed.
+
+Lemma refine_print : forall g, step_goal K S0 C0 (SnPrint g).
 Proof.
-  intros [kp] [sg si] [he fibs cd mods ch rg gl] sn Hni Hnr [Hg Hi Hp Hu Hf Hgood]; cbn in *; subst sg.
-  unfold step_goal.
-  destruct sn as [g z|g|f g|f|cl z|cl|pre|w d|  |  |  |  |k|  |m|m| ].
-  - ev; fin_same Hi Hp Hu Hf Hgood.
-  - ev; fin_same Hi Hp Hu Hf Hgood.
-  - ev; fin_same Hi Hp Hu Hf Hgood.
-  - ev; fin_same Hi Hp Hu Hf Hgood.
-  - ev; fin_same Hi Hp Hu Hf Hgood.
-  - ev; fin_same Hi Hp Hu Hf Hgood.
-  - destruct pre; ev; fin_same Hi Hp Hu Hf Hgood.
-  - destruct d as [[g z]|]; destruct w as [|[]| | | | | | | | | | ]; ev; fin_same Hi Hp Hu Hf Hgood.
-  - ev; fin_same Hi Hp Hu Hf Hgood.
-  - ev; fin_same Hi Hp Hu Hf Hgood.
-  - ev; fin_same Hi Hp Hu Hf Hgood.
-  - ev; fin_same Hi Hp Hu Hf Hgood.
-  - destruct k; cbn; unfold m_build_range; cbn; destruct (range_hit _ rg); try destruct (range_full rg); nf;
-      fin_same Hi Hp Hu Hf Hgood.
-  - ev; fin_same Hi Hp Hu Hf Hgood.
-  - exfalso; eapply Hni; reflexivity.
-  - ev; fin_same Hi Hp Hu Hf Hgood.
-  - exfalso; apply Hnr; reflexivity.
+  intros g; unfold step_goal, K, S0, C0, gl; destruct g; [dv a0 | dv a1]; nf; fin_same Hw Hi Hp Hu Hf Hg.
 Qed.
+
+Ltac start := unfold step_goal, K, S0, C0, gl.
+Ltac fin := fin_same Hw Hi Hp Hu Hf Hg.
+
+Lemma refine_fn : forall f g, step_goal K S0 C0 (SnFn f g).
+Proof. intros f g; start; destruct f; nf; fin. Qed.
+
+Lemma refine_call : forall f, step_goal K S0 C0 (SnCall f).
+Proof.
+  intros f; start; destruct f.
+  - destruct a2 as [[?|g|?|?|[]|?]|]; try (nf; fin). destruct g; [dv a0 | dv a1]; nf; fin.
+  - destruct a3 as [[?|g|?|?|[]|?]|]; try (nf; fin). destruct g; [dv a0 | dv a1]; nf; fin.
+Qed.
+
+Lemma refine_class : forall c z, step_goal K S0 C0 (SnClass c z).
+Proof. intros c z; start; destruct c; nf; fin. Qed.
+
+Lemma refine_use : forall c, step_goal K S0 C0 (SnUse c).
+Proof. intros c; start; destruct c; [dv a4 | dv a5]; nf; fin. Qed.
+
+Lemma refine_syntax : forall pre, step_goal K S0 C0 (SnSyntax pre).
+Proof. intros pre; start; destruct pre; nf; fin. Qed.
+
+Lemma refine_misc : step_goal K S0 C0 SnTryFin /\ step_goal K S0 C0 SnTryCatch /\ step_goal K S0 C0 SnFiberOk /\
+                    step_goal K S0 C0 SnCaptureOk.
+Proof. repeat split; start; nf; try fin. all: fin. Qed.
+
+Lemma refine_range : forall k, step_goal K S0 C0 (SnRange k).
+Proof.
+  intros k; start; destruct k; unfold m_snippet, m_add_chunks, m_execute_start; cbn [compiles code_of chunks_of depth_nat];
+    unfold run_fuel; cbn [run_instrs ms_st step]; unfold m_build_range; cbn [c_ranges ms_c with_chunks with_fibers with_he];
+    destruct (range_hit _ rg); try destruct (range_full rg); nf; fin.
+Qed.
+
+Lemma refine_useleak : step_goal K S0 C0 SnUseLeak.
+Proof. start; dv a6; nf; fin. Qed.
+
+Lemma refine_usemod : forall m, step_goal K S0 C0 (SnUseMod m).
+Proof. intros m; start; destruct m; [dv a8 | dv a9 | dv a10 | dv a11 | dv a12]; nf; fin. Qed.
+End Plain.
